@@ -34,7 +34,7 @@ METHOD = {
     "contains": "contains", "strictly_contains": "strictly_contains", "disjoint": "is_disjoint_from", "equals": "operator==",
     "constrains": "constrains", "affdim": "affine_dimension", "relcon": "relation_with(Constraint)",
     "relcg": "relation_with(Congruence)", "relgen": "relation_with(Generator)", "bounds_above": "bounds_from_above",
-    "bounds_below": "bounds_from_below", "max": "maximize", "min": "minimize", "has_ub": "has_upper_bound", "has_lb": "has_lower_bound",
+    "bounds_below": "bounds_from_below", "max": "maximize", "min": "minimize", "maxp": "maximize(point)", "minp": "minimize(point)", "has_ub": "has_upper_bound", "has_lb": "has_lower_bound",
 }
 
 
@@ -68,6 +68,18 @@ def parse_cs_rows(toks, n):
         rel, k = toks[p], int(toks[p + 1]); a = [int(x) for x in toks[p + 2:p + 2 + n]]
         rows.append((rel, k, a)); p += 2 + n
     return rows, toks[p:]
+
+
+def rows_of_slot(lines, upto, slot):
+    """rows of the last reported constraint system of `slot` before line `upto` (None if unknown)"""
+    for l in reversed(lines[:upto]):
+        t = l.split()
+        if t[0] in ("arg", "res") and t[1] == slot and t[3] == "cons":
+            try:
+                return parse_cs_rows(t[4:], int(t[2]))[0]
+            except Exception:
+                return None
+    return None
 
 
 def dim_of_slot(lines, upto, slot):
@@ -127,16 +139,45 @@ def classify(lines, idx, verdict):
         if n == 0: tags.append("zero_dim")
         if t[2] == "disjoint" and "[no-single-direction-separates]" in verdict:
             tags.append("no_single_direction_separates")
+        recv_rows = rows_of_slot(lines, idx, t[1])
+        if recv_rows is not None and len(recv_rows) == 0: tags.append("universe_receiver")
+        if t[2] in ("max", "min", "maxp", "minp", "bounds_above", "bounds_below"):
+            try:
+                (k0, a0), _ = parse_expr(t[3:], n)
+                if not nonzero(a0):
+                    tags.append("constant_expr")
+                    if "universe_receiver" in tags: tags.append("universe_receiver_constant_expr")
+            except Exception: pass
+        if t[2] == "relcon" and recv_rows is not None:
+            try:
+                rel, k0 = t[3], int(t[4]); a0 = [int(x) for x in t[5:5 + n]]
+                nz = nonzero(a0)
+                if not nz:
+                    tags.append("trivial_constraint")
+                    if rel == "=" and k0 != 0: tags.append("trivially_false_equality")
+                if len(nz) == 1:
+                    v = nz[0]; tags.append("interval_constraint")
+                    has_ub = any(len(nonzero(r[2])) == 1 and r[2][v] != 0 and (r[0] == "=" or r[2][v] < 0) for r in recv_rows)
+                    has_lb = any(len(nonzero(r[2])) == 1 and r[2][v] != 0 and (r[0] == "=" or r[2][v] > 0) for r in recv_rows)
+                    if rel != "=" and a0[v] < 0 and not has_ub: tags.append("upper_bound_constraint_var_unbounded_above")
+                    if rel != "=" and a0[v] > 0 and not has_lb: tags.append("lower_bound_constraint_var_unbounded_below")
+                    if rel == "=" and not has_lb: tags.append("equality_constraint_var_unbounded_below")
+                    if rel == "=" and not has_ub: tags.append("equality_constraint_var_unbounded_above")
+            except Exception: pass
         if t[2] == "relcg":
             m = int(t[3]); a = [int(x) for x in t[5:5 + n]]
             tags.append("proper_congruence" if m != 0 else "equality_congruence")
-            if not nonzero(a): tags.append("all_coefficients_zero")
+            if not nonzero(a):
+                tags.append("all_coefficients_zero")
+                if m == 0 and int(t[4]) != 0: tags.append("trivially_false_equality")
             mm = re.search(r"library D(\d) S(\d) I(\d) T(\d), set dictates D(\d) S(\d) I(\d)", verdict)
             if mm:
                 g = [int(x) for x in mm.groups()]
                 if g[1] == 1 and g[6] == 1: tags.append("included_reported_strictly_intersects")
                 if g[0] == 1 and g[4] == 0: tags.append("reported_disjoint_but_intersects")
                 if g[0] == 0 and g[4] == 1: tags.append("disjoint_not_reported")
+                if m != 0:
+                    tags += ["proper_congruence_" + x for x in tags if x in ("included_reported_strictly_intersects", "reported_disjoint_but_intersects", "disjoint_not_reported")]
     elif t[0] in ("res", "exc"):
         if op is None:
             site = cls + "::?"
@@ -147,6 +188,8 @@ def classify(lines, idx, verdict):
                                                "univ": "UNIVERSE", "empty": "EMPTY"}.get(how, how))
             if how in ("poly",): tags.append("complexity_" + op[5])
             if how in ("grid", "from"): tags.append("complexity_" + (op[4] if how == "grid" else op[5]))
+            if how == "grid" and int(op[5]) > 1: tags.append("grid_has_direction")
+            if how == "from": tags.append("source_" + op[4])
         else:
             name = op[2]
             site = "%s::%s" % (cls, METHOD.get(name, name))
@@ -160,6 +203,10 @@ def classify(lines, idx, verdict):
                 tags += ["arg_" + f for f in status_flags(lines, opi, op[3])]
                 if op[3] == op[1]: tags.append("aliased")
             if n == 0: tags.append("zero_dim")
+            rr = rows_of_slot(lines, opi, op[1])
+            if rr is not None:
+                if n >= 2 and any(r[0] != "=" and len(nonzero(r[2])) == 1 for r in rr): tags.append("recv_unary_inequality_dim_ge_2")
+            if "lhs_ge2_vars" in tags and "recv_SPR" in tags: tags.append("lhs_ge2_vars_recv_reduced")
         if t[0] == "res" and t[3] != "cons":
             tags.append("reading_" + t[3])
     elif t[0] in ("arg", "obs"):
@@ -210,18 +257,27 @@ def op_tags(name, args, n, kind):
             elif len(nz) == 1: tags += ["one_var_expr", "expr_var_is_var" if nz[0] == v else "expr_var_is_other"]
             else: tags.append("general_expr")
             if v in nz: tags.append("expr_mentions_var")
+            else:
+                tags.append("expr_omits_var")
+                if rel != "=": tags.append("expr_omits_var_rel_not_eq")
             if d < 0: tags.append("negative_den")
         elif name in ("gen_img2", "gen_pre2"):
             rel = args[0]; (k1, a1), rest = parse_expr(args[1:], n); (k2, a2), _ = parse_expr(rest, n)
             tags.append("rel_" + {"<": "lt", "<=": "le", "=": "eq", ">=": "ge", ">": "gt"}[rel])
-            tags.append("lhs_%d_vars" % min(len(nonzero(a1)), 2))
-            tags.append("rhs_%d_vars" % min(len(nonzero(a2)), 2))
+            tags.append("lhs_%d_vars" % min(len(nonzero(a1)), 3))
+            tags.append("rhs_%d_vars" % min(len(nonzero(a2)), 3))
+            if len(nonzero(a1)) >= 2: tags.append("lhs_ge2_vars")
+            if len(nonzero(a1)) >= 3: tags.append("lhs_ge3_vars")
             if set(nonzero(a1)) & set(nonzero(a2)): tags.append("lhs_rhs_share_var")
         elif name in ("bnd_img", "bnd_pre"):
             v, d = int(args[0]), int(args[1]); (k1, a1), rest = parse_expr(args[2:], n); (k2, a2), _ = parse_expr(rest, n)
             tags.append("lb_%d_vars" % min(len(nonzero(a1)), 2)); tags.append("ub_%d_vars" % min(len(nonzero(a2)), 2))
             if v in nonzero(a1) or v in nonzero(a2): tags.append("bounds_mention_var")
+            if v not in nonzero(a1) or v not in nonzero(a2): tags.append("bound_expr_omits_var")
             if d < 0: tags.append("negative_den")
+            if v in nonzero(a1) and v in nonzero(a2):
+                tags.append("var_in_both_bounds")
+                if d < 0: tags.append("var_in_both_bounds_negative_den")
         elif name in ("refine_cons", "add_cons"):
             rows, _ = parse_cs_rows(args, n)
             if any(r[0] == ">" and nonzero(r[2]) for r in rows): tags.append("strict_row")
